@@ -6,7 +6,7 @@
    commit 753a572); [false] = the acceptConn before that commit, kept as a
    regression record of finding F11 (notes/C19-findings.md). *)
 From Coq Require Import Arith List Bool.
-From Mpc Require Import Proto.Mesh Proto.MeshProof Proto.MeshFixedProof.
+From Mpc Require Import Proto.Mesh Proto.MeshProof Proto.MeshFixedProof Proto.MeshLive.
 Import ListNotations.
 
 (* REGRESSION RECORD (finding F11, fixed in /repo by commit 753a572): with the
@@ -29,16 +29,31 @@ Theorem C19_old_acceptConn_refuted :
 Proof. exact complete_refuted. Qed.
 Print Assumptions C19_old_acceptConn_refuted.
 
-(* The code as it is now: for every number of parties n >= 2, every number
-   of connections 1 <= k <= 256, EVERY schedule (any list of thread ids, fair
-   or not, any prefix of any run) and every party i: if i's Connect has
-   returned nil, then the peer table the caller saw at that moment, and the
-   table now, are complete — Peers is exactly 0..n-1 and all k connections to
-   every other party are stored.  PARTIAL: that every fair schedule makes
-   every Connect return (termination) is not proved; it is exercised by the
-   correspondence runs and the canonical/hook-driven schedules evaluated in
-   MeshProof.v. *)
-Theorem C19_complete_partial :
+(* C19_complete.  The code as it is now: for every number of parties n >= 2,
+   every number of connections 1 <= k <= 256 and EVERY FAIR schedule (one that
+   can be cut into at least round_bound n k consecutive segments each of which
+   schedules every one of the 2n threads at least once; round_bound exceeds the
+   number of non-stuttering steps any run can make) the run ends in the final
+   state: every Connect has returned nil, every accept thread is idle with an
+   empty backlog, every party's table — now and at the moment its Connect
+   returned — has Peers = 0..n-1 with all k connections stored, and for every
+   pair i, j and every c the c-th connection to j at i is the very link that
+   is the c-th connection to i at j ([complete], i.e. run_mesh = Final).
+   Proof (MeshLive.v): a global invariant, deadlock freedom (in a reachable
+   state in which no thread is enabled the mesh is complete) and a measure
+   (3 x program-counter rank + 2 x backlog length + accept-thread bit, summed
+   over the parties) that every non-stuttering step strictly decreases. *)
+Theorem C19_complete :
+  forall n k, 2 <= n -> 1 <= k -> k <= 256 ->
+  forall sched, fair n k sched ->
+    run_mesh true n k sched = Final (run_from true n k (init n) sched).
+Proof. exact mesh_complete. Qed.
+Print Assumptions C19_complete.
+
+(* Safety half, for ALL schedules (fair or not) and all prefixes: if party
+   i's Connect has returned nil, the peer table the caller saw at that moment,
+   and the table now, are complete. *)
+Theorem C19_complete_at_return :
   forall n k, 2 <= n -> 1 <= k -> k <= 256 ->
   forall (sched : list nat) (i : nat), i < n ->
     let st := run_from true n k (init n) sched in
@@ -46,7 +61,7 @@ Theorem C19_complete_partial :
     (exists ps t, p_ret (g_party st i) = Some (ps, t) /\ tab_complete n k i ps t = true) /\
     tab_complete n k i (p_peers (g_party st i)) (p_conns (g_party st i)) = true.
 Proof. exact fixed_return_complete. Qed.
-Print Assumptions C19_complete_partial.
+Print Assumptions C19_complete_at_return.
 
 (* The invariant whose failure was F11, proved for the code as it is now for
    all n, k, schedules: while the accept goroutine of party i runs, need[c] = 0
@@ -62,15 +77,30 @@ Theorem C19_need_zero_means_stored :
 Proof. exact fixed_need_zero_stored. Qed.
 Print Assumptions C19_need_zero_means_stored.
 
-(* No cross-wiring of parties (all n, k, schedules): whatever is stored as
-   Conns[c] of peer j in party i's table is a link whose two ends are exactly
-   i and j.  PARTIAL with respect to "no (i,j,c) set twice, the c-th at one
-   end is the c-th at the other": a slot is written only when it is empty
-   (Peer.SetConn refuses otherwise, which the model turns into an error state
-   that C19_complete_partial excludes for returned Connects), but that the two
-   ends of a pair store the SAME link under the same c is checked by the ping
-   matrix of the harness, not proved. *)
-Theorem C19_no_dup_cross_partial :
+(* C19_no_dup_cross.  For all n >= 2, 1 <= k <= 256, ALL schedules and all
+   prefixes: (1) no error state is ever reached — no Connect fails and no accept
+   thread dies; in particular Peer.SetConn never finds a slot already set (no
+   (i,j,c) is written twice: a second write is an error in the model) and
+   acceptConn never reports "too many connections"; (2) whenever both ends of a
+   pair have stored their c-th connection, it is the SAME link, and a link
+   stored at both ends is stored under the same index (the connection id
+   carried in the hello on the accepting side = the dial index on the dialling
+   side).  (3) below: every stored connection joins the right two parties. *)
+Theorem C19_no_dup_cross :
+  forall n k, 2 <= n -> 1 <= k -> k <= 256 ->
+  forall sched, let st := run_from true n k (init n) sched in
+    (forall i, i < n ->
+       (forall code, p_main (g_party st i) <> MErr code) /\
+       (forall code, p_acc (g_party st i) <> ADead code) /\ p_ldone (g_party st i) = false) /\
+    (forall i j c c' l l', i < n -> j < n -> i <> j ->
+       p_conns (g_party st i) j c = Some l -> p_conns (g_party st j) i c' = Some l' ->
+       (c = c' -> l = l') /\ (l = l' -> c = c')).
+Proof. exact mesh_no_dup_cross. Qed.
+Print Assumptions C19_no_dup_cross.
+
+(* (3) whatever is stored as Conns[c] of peer j in party i's table is a link
+   whose two ends are exactly i and j *)
+Theorem C19_no_cross_party :
   forall n k, 2 <= n -> 1 <= k -> k <= 256 ->
   forall (sched : list nat) (i j c l : nat), i < n ->
     let st := run_from true n k (init n) sched in
@@ -79,4 +109,4 @@ Theorem C19_no_dup_cross_partial :
     ((l_from (g_link st l) = i /\ l_to (g_link st l) = j) \/
      (l_from (g_link st l) = j /\ l_to (g_link st l) = i)).
 Proof. exact fixed_conn_endpoints. Qed.
-Print Assumptions C19_no_dup_cross_partial.
+Print Assumptions C19_no_cross_party.
